@@ -1422,17 +1422,23 @@ func newGen(t *rapid.T, px string) *gen {
 	return g
 }
 
+// devSites > 0 fixes the number of use sites (development aid only).
+var devSites = 0
+
 // Generate builds one valid program (main stream).
 func Generate(t *rapid.T, px string) gobatch.Program {
 	g := newGen(t, px)
 	body := g.entryPrologue()
 	n := g.Int(3, 10, "nsites")
+	if devSites > 0 {
+		n = devSites
+	}
 	for i := 0; i < n; i++ {
 		body += g.site()
 	}
 	// final state of every variable
 	for _, r := range g.recvs {
-		if r.base == r.text {
+		if r.base == r.text && devSites == 0 {
 			body += g.obsStmt(r)
 		}
 	}
